@@ -10,6 +10,9 @@ Two populations (drawn per run):
 
 from ..actors import InjectedFault
 from ..loop import PAUSE, CANCEL, make_lock_type
+
+# what a failing getter may raise: also the exception types the machinery itself handles somewhere
+GETTER_ERRORS = (InjectedFault, KeyError, AttributeError, TypeError, LookupError, RuntimeError, ValueError)
 from ..runner import Outcome
 from ..tools import lib
 from .common import set_interrupts, COMPONENTS_BASE, COMPONENTS_AIO, run_sim, new_sim, finish_outcome, pick_backend, make_lock
@@ -45,9 +48,11 @@ def gen_seq(ch):
     sc.mode = "seq"
     sc.lock = ch.chance(1, 2)
     sc.susp = [ch.draw(3) for _ in range(3)]
+    sc.fault_kind = ch.draw(len(GETTER_ERRORS))
     ops = []
     for _ in range(ch.between(1, 15)):
-        kind = ch.weighted([6, 2, 3, 2, 1])  # await | take | await taken | del | arm failure
+        # await | take | await taken | del | arm failure | await the attribute of a temporary instance
+        kind = ch.weighted([6, 2, 3, 2, 1, 1])
         ops.append((kind, ch.draw(2), ch.draw(3)))
     sc.ops = ops
     return sc
@@ -71,7 +76,8 @@ def make_class(sc, sim, runs, lock_type, state):
             if state.fail_armed.get(self.iid):
                 state.fail_armed[self.iid] = False
                 rec["status"] = "failed"
-                raise InjectedFault("getter%d" % len(runs))
+                rec["exc"] = GETTER_ERRORS[sc.fault_kind % len(GETTER_ERRORS)]("getter%d" % len(runs))
+                raise rec["exc"]
             value = ["value", self.iid, runs.index(rec)]
             rec["value"] = value
             rec["status"] = "ok"
@@ -126,8 +132,8 @@ def run_seq(sc, st, ctx, out, sim):
             if kind == 0:
                 try:
                     res = ("value", await inst.attr)
-                except InjectedFault:
-                    res = ("fault",)
+                except GETTER_ERRORS as err:
+                    res = ("fault",) if any(r.get("exc") is err for r in runs) else ("other_error", repr(err))
             elif kind == 1:
                 taken[(ii, slot)] = inst.attr
                 res = ("taken",)
@@ -138,17 +144,25 @@ def run_seq(sc, st, ctx, out, sim):
                 else:
                     try:
                         res = ("value", await aw)
-                    except InjectedFault:
-                        res = ("fault",)
+                    except GETTER_ERRORS as err:
+                        res = ("fault",) if any(r.get("exc") is err for r in runs) else ("other_error", repr(err))
             elif kind == 3:
                 try:
                     del inst.attr
                     res = ("deleted",)
                 except AttributeError:
                     res = ("attribute_error",)
-            else:
+            elif kind == 4:
                 state.fail_armed[ii] = True
                 res = ("armed",)
+            else:
+                # nobody but the awaitable refers to the instance
+                try:
+                    res = ("value", await Holder(7 + len(trace)).attr)
+                except GETTER_ERRORS as err:
+                    res = ("fault",) if any(r.get("exc") is err for r in runs) else ("other_error", repr(err))
+                except Exception as err:  # noqa
+                    res = ("other_error", repr(err))
             trace.append((res, len(runs) - nruns))
 
     sim.spawn(history())
@@ -211,9 +225,11 @@ def run_seq(sc, st, ctx, out, sim):
                 slot[ii] = None
                 cached[ii] = None
                 exp = ("deleted", 0)
-        else:
+        elif kind == 4:
             armed[ii] = True
             exp = ("armed", 0)
+        else:
+            exp = ("temp", 1)
         # compare
         bad = None
         if exp[0] == "value_is":
@@ -225,16 +241,19 @@ def run_seq(sc, st, ctx, out, sim):
             else:
                 cached[ii] = got[1]
                 slot[ii] = "val"
+        elif exp[0] == "temp":
+            if got[0] != "value" or ngot != 1:
+                bad = "attribute of a temporary instance: expected one getter run and its value"
         elif exp[0] == "fault":
             if got[0] != "fault" or ngot != 1:
-                bad = "failing getter: expected the fault and nothing cached"
+                bad = "failing getter: expected the getter's own exception object once, and nothing cached"
         else:
             if got[0] != exp[0] or ngot != exp[1]:
                 bad = "op result differs"
         if bad:
-            out.violate("C12.history_differs_from_model", sig + (("await", "take", "await_taken", "del", "arm")[kind],),
+            out.violate("C12.history_differs_from_model", sig + (("await", "take", "await_taken", "del", "arm", "await_temp")[kind],),
                         {"op_index": i, "why": bad, "got": repr(got), "runs": ngot, "expected": repr(exp),
-                         "ops": [(("await", "take", "await_taken", "del", "arm")[k], a, b) for k, a, b in sc.ops[: i + 1]],
+                         "ops": [(("await", "take", "await_taken", "del", "arm", "await_temp")[k], a, b) for k, a, b in sc.ops[: i + 1]],
                          "lock": sc.lock})
             ok = False
             break
@@ -260,7 +279,7 @@ def run_seq(sc, st, ctx, out, sim):
     out.shape = ("seq", sc.lock, tuple(sc.ops))
     if ctx.want_sample:
         out.sample = {"mode": "sequential", "lock": sc.lock,
-                      "ops": [(("await", "take", "await_taken", "del", "arm")[k], a, b) for k, a, b in sc.ops],
+                      "ops": [(("await", "take", "await_taken", "del", "arm", "await_temp")[k], a, b) for k, a, b in sc.ops],
                       "trace": [repr(t) for t in trace]}
     if ctx.want_log:
         out.log = [[(repr(t[0][0]), t[1]) for t in trace], sim.trace]
@@ -291,6 +310,7 @@ def gen_conc(ch):
     sc.cancel = ch.draw(sc.n) if ch.chance(1, 3) else None
     sc.interrupt = ch.draw(4)
     sc.backend = pick_backend(ch, 1, 4)
+    sc.fault_kind = ch.draw(len(GETTER_ERRORS))
     return sc
 
 
@@ -336,8 +356,8 @@ def run_conc(sc, st, ctx, out, sim):
                         out.probes["arrival_during_compute"] = 1
                     rec[4] = await aw
                 rec[3] = "ok"
-            except InjectedFault:
-                rec[3] = "fault"
+            except GETTER_ERRORS as err:
+                rec[3] = "fault" if any(r.get("exc") is err for r in runs) else "other_error:" + repr(err)
             except CANCEL:
                 rec[3] = "cancelled"
                 rec[2] = state.tick()
@@ -395,6 +415,9 @@ def run_conc(sc, st, ctx, out, sim):
         for a in awaits:
             if a[3] == "running":
                 out.violate("C12.awaiter_never_finished", sig, describe())
+                break
+            if str(a[3]).startswith("other_error"):
+                out.violate("C12.getter_error_replaced", sig, dict(describe(), got=a[3]))
                 break
         produced = [r["value"] for r in runs if r["status"] == "ok"]
         for a in awaits:
